@@ -51,7 +51,7 @@ type C03Case struct {
 	PreTxs   int    `json:"pre_txs"` // valid txs of the victim executed before (so its sequence is not 0)
 }
 
-var c03Kinds = []string{"eth-legacy", "eth-access", "eth-dynamic", "cosmos-direct", "cosmos-amino", "eip712-pubkey", "eip712-web3"}
+var c03Kinds = []string{"eth-legacy", "eth-access", "eth-dynamic", "cosmos-direct", "cosmos-amino", "eip712-pubkey", "eip712-web3", "eip712-direct"}
 
 func genC03(t *rapid.T) C03Case {
 	c := C03Case{}
@@ -66,8 +66,8 @@ func genC03(t *rapid.T) C03Case {
 	c.NAccess = rapid.IntRange(0, 2).Draw(t, "naccess")
 	c.Timeout = rapid.SampledFrom([]uint64{0, 0, 1000}).Draw(t, "timeout")
 	c.PreTxs = rapid.IntRange(0, 2).Draw(t, "pretxs")
-	if c.Kind == "eip712-web3" {
-		c.Timeout = 0 // the legacy typed-data schema has no timeout_height field
+	if c.Kind == "eip712-web3" || (c.Kind == "eip712-direct" && rapid.IntRange(0, 3).Draw(t, "direct-timeout") > 0) {
+		c.Timeout = 0 // the legacy typed-data schema has no timeout_height field; typed data from a protobuf sign document refuses one
 	}
 	return c
 }
@@ -299,6 +299,8 @@ func runC03(st *ev.Stats, c C03Case) string {
 				return txb.SignCosmos(victim, x), nil
 			case "eip712-pubkey":
 				return txb.EIP712(victim, x, typedChain, false)
+			case "eip712-direct":
+				return txb.EIP712Direct(victim, x)
 			default:
 				return txb.EIP712(victim, x, typedChain, true)
 			}
@@ -556,9 +558,14 @@ func runC03(st *ev.Stats, c C03Case) string {
 		if after.eq(before) && code == 0 && !isEth {
 			return fail("mutated-accepted:"+c.Kind+":"+m.Name, fmt.Sprintf("mutation %q was accepted: %s", m.Name, trunc(log)))
 		}
-		// Something moved. That is only legitimate if the mutation touched nothing that is signed or executed, i.e.
-		// the effect equals the effect of the signed transaction itself (differential against a second fork), and it
-		// then counts as THE one execution of that content.
+		// Something moved. That is only legitimate if the mutation touched nothing that is signed or executed (the
+		// mutations listed in late: the declared sign mode of an EIP-712 signature, a non-critical extension option, the
+		// recovery id's encoding), and then only if the effect equals the effect of the signed transaction itself
+		// (differential against a second fork); it then counts as THE one execution of that content. A changed signed
+		// field that is accepted is a violation even when the change happens to make no difference this time.
+		if !late[m.Name] {
+			return fail("mutated-accepted:"+c.Kind+":"+m.Name, fmt.Sprintf("mutation %q of a signed field was accepted and executed on behalf of the victim (code %d, %s): %s -> %s", m.Name, code, trunc(log), before, after))
+		}
 		if consumed {
 			return fail("executed-twice:"+c.Kind+":"+m.Name, fmt.Sprintf("mutation %q executed the signed content a second time: %s -> %s", m.Name, before, after))
 		}
